@@ -58,6 +58,9 @@ def check_jq(rep, binary, path, text, span, how):
         rep.violation(f"C28:cli:byte_range:{span['kind']}", f"offset {off}: byte_range {rng}, token span [{span['start']}, {span['end']}]", replay)
         return
     e = climon.run_cli(binary, ["jq", "-c", expr, path])
+    if e.timeout:
+        rep.inconc({"why": "expression not runnable through the CLI (watchdog or NUL byte in argv)", "expr": expr[:120]})
+        return
     if e.crashed:
         rep.violation("C28:cli:expression:crash", f"jq {expr!r} died rc={e.rc}: {e.err[-200:]!r}", replay)
         return
